@@ -31,6 +31,17 @@ theorem inBounds_insAt {s j : List Nat} {n a : Nat} (hn : n < s.length) (hj : In
         rw [insAt_cons_succ]
         exact ⟨hj.1, ih hn hj.2 (by simpa using ha)⟩
 
+/-- the Gram entry depends only on the denoted array. -/
+theorem gramSpec_congr [Add α] [Mul α] [Zero α] (g1 g2 : List Nat → α) (shape : List Nat) (n a b : Nat)
+    (h : ∀ i, InBounds shape i → g1 i = g2 i) (hn : n < shape.length) (ha : a < shape.getD n 0)
+    (hb : b < shape.getD n 0) : gramSpec g1 shape n a b = gramSpec g2 shape n a b := by
+  unfold gramSpec
+  congr 1
+  apply List.map_congr_left
+  intro j hj
+  have hjb := mem_allSubs.1 hj
+  rw [h _ (inBounds_insAt hn hjb ha), h _ (inBounds_insAt hn hjb hb)]
+
 theorem toSptenmat_rowmode [Add α] [Zero α] [BEq α] (S : Sparse α) (n : Nat) :
     S.toSptenmat (some [n]) none none = S.toSptenmat (some [n]) (some (complDims S.shape.length [n])) none := by
   simp [Sparse.toSptenmat, gatherWrapDims]
